@@ -247,7 +247,9 @@ func (w *world) record(idx int) error {
 	}
 	switch op.K {
 	case "AddFace":
-		return add(insertion{loc: op.Loc.loc(), family: font.NormalizeFamily(op.Family), aspect: op.Aspect.aspect(), origin: "face", face: w.faces[idx], ft: pf.Font, user: true})
+		given := op.Aspect.aspect()
+		given.SetDefaults() // unspecified fields of a description mean regular
+		return add(insertion{loc: op.Loc.loc(), family: font.NormalizeFamily(op.Family), aspect: given, origin: "face", face: w.faces[idx], ft: pf.Font, user: true})
 	case "AddFont":
 		fi := infoOf(pf)
 		if fi.err != nil {
